@@ -158,6 +158,15 @@ NAMES = {   # spellings offered per kind: listed names, aliases, case variants, 
     "world": ["color", "colour", "cycles", "cyc", "width", "style", "symbol", "sym", "size", "alias", "COLOR", "Colour", "CYCLES",
               "Cyc", "Width", "Sym", "ALIAS", "col", "cycl", "wid", "sty", "symb", "siz", "ali", "co", "s", "bogus", "title"],
 }
+SETNAMES = {   # lower-case spellings to prefer for set calls (input weighting only; TLC decides what they resolve to)
+    "axis": {"title", "begin", "end", "tlen", "exponent", "exp", "intervals", "intv", "int", "subtick", "sub", "decimals", "dec",
+             "lpos", "labelpos", "label position", "tpos", "titlepos", "title position"},
+    "line": {"color", "x1", "x2", "y1", "y2", "width", "style", "symbol", "size"},
+    "text": {"color", "pos", "size", "align", "angle", "value", "font", "x", "y"},
+    "graph": {"axes", "worlds", "foreground", "fg", "background", "bg", "pos", "position", "scale", "grid", "type", "gridtype",
+              "align", "alignment", "clip", "clipping", "lpos"},
+    "world": {"color", "colour", "cycles", "cyc", "width", "style", "symbol", "sym", "size", "alias"},
+}
 WORDS = ["abc", "red", "RED", "Green", "blue", "cyan", "magenta", "yellow", "white", "black", "reddish", "red x", " red", "log",
          "LOG", "Logarithmic", "lag", "#ff0000", "#FF000080", "#", "#80", "#8040", "#8", "#804", "#gg0000", "#0a1B2c", "#01020304",
          "#0102030405", "# 1", "b", "e", "z", "bez", "ZE", "eb", "bq", "bezb", "x", "y", "xy", "zx", "xyz", "yy", "xq", "X", "A",
@@ -254,6 +263,41 @@ def rand_value(rng):
     return dict(blank, f="s", c=codes(rng.choice(WORDS)))
 
 
+HINT = {"title": "str", "alias": "str", "value": "str", "font": "str", "axes": "str", "worlds": "str",
+        "color": "col", "colour": "col", "foreground": "col", "fg": "col", "background": "col", "bg": "col",
+        "pos": "pt", "position": "pt", "scale": "pt",
+        "lpos": "chr", "tpos": "chr", "labelpos": "chr", "titlepos": "chr", "label position": "chr", "title position": "chr",
+        "grid": "chr", "type": "chr", "gridtype": "chr"}
+COLWORDS = [w for w in WORDS if w[:1] == "#" or w.lower().strip() in ("red", "green", "blue", "cyan", "magenta", "yellow", "white", "black", "reddish")]
+
+
+def fitting_value(rng, name):
+    """input weighting only: a value form that suits the kind of property the name suggests"""
+    h = HINT.get(name.lower(), "num")
+    blank = {"n": [], "c": [], "sty": ""}
+    if h == "str":
+        return dict(blank, f="rle", c=rand_string_rle(rng))
+    if h == "col":
+        if rng.random() < 0.3:
+            return dict(blank, f="col", c=[rng.choice([0, 1, 127, 128, 255]) for _ in range(4)])
+        return dict(blank, f="txt", c=codes(rng.choice(COLWORDS)))
+    if h == "pt":
+        pick = lambda: rng.choice([0, 1, 2, 3, -1, 4, 6, 400])
+        r = rng.random()
+        if r < 0.4:
+            return dict(blank, f="num", n=dbl(pick()), sty="dec")
+        if r < 0.75:
+            return dict(blank, f="num2", n=dbl(pick()) + dbl(pick()))
+        return dict(blank, f="fpt", n=dbl(pick()) + dbl(pick()))
+    if h == "chr":
+        return dict(blank, f="txt", c=codes(rng.choice(["A", "r", " r", "~", "5", "b", "x", "Zz", "left"])))
+    for _ in range(20):
+        v = rand_value(rng)
+        if v["f"] in ("num", "i", "y", "u", "n", "d", "f") or (name.lower() in ("align", "alignment", "clip", "clipping", "intervals", "intv", "int") and v["f"] == "txt"):
+            return v
+    return v
+
+
 def gen_histories(ck, n, steps, cxx=False):
     rng = ck.rng
     hist = []
@@ -261,15 +305,18 @@ def gen_histories(ck, n, steps, cxx=False):
     for h in range(n):
         kind = kinds[h % 5]
         names = NAMES[kind]
+        # spellings mpt_<kind>_set knows come first in each list (up to the first upper-case variant + those)
+        known = [n for n in names if n.lower() in SETNAMES[kind]]
         beh = [{"a": "init", "arg": {"kind": kind}}]
         for _ in range(steps):
             r = rng.random()
             o = 0 if rng.random() < 0.75 else 1
             if r < 0.55:
-                v = rand_value(rng)
+                nm = rng.choice(known) if rng.random() < 0.85 else rng.choice(names)
+                v = fitting_value(rng, nm) if rng.random() < 0.6 else rand_value(rng)
                 if v["f"] in ("num", "txt", "rle") and rng.random() < 0.2:
                     v["f"] = "p" + v["f"]              # same text through mpt_object_set_property
-                beh.append({"a": "set", "arg": dict({"o": o, "name": codes(rng.choice(names))}, **v)})
+                beh.append({"a": "set", "arg": dict({"o": o, "name": codes(nm)}, **v)})
             elif r < 0.65:
                 beh.append({"a": "reset", "arg": {"o": o, "name": codes(rng.choice(names)), "f": rng.choice(["null", "null", "pnull"])}})
             elif r < 0.75:
